@@ -286,7 +286,7 @@ func judgeC15Unit(g *Graph, u *Unit, rr *RunResult, i int) []Issue {
 	}
 	if u.Tools == "real" && haveExe {
 		want := fmt.Sprintf("%d\n", g.Value(0, map[int]int64{}))
-		pr := core.RunProc(10*time.Second, ud, nil, nil, filepath.Join(ud, "out", "app"))
+		pr := core.RunProc(90*time.Second, ud, nil, nil, filepath.Join(ud, "out", "app"))
 		if pr.TimedOut || pr.ExitCode != 0 || string(pr.Stdout) != want {
 			issues = append(issues, Issue{"dag-wrong-output", fmt.Sprintf("program printed %q (exit %d), the import graph says %q", string(pr.Stdout), pr.ExitCode, want)})
 		}
